@@ -76,6 +76,25 @@ def extra_scenarios(coll, stats):
             coll.add('C17|%s|two-apps|%s' % (
                 clause, 'fault' if fault else 'fault-free'),
                 {'scenario': 'two-apps', 'fault_at': fault}, detail)
+        # what was announced as applied must be in the database after the
+        # run, whether the run as a whole failed or not
+        effect_of = {('va', 'e1'): ('va_author', 'n1'),
+                     ('vab', 'e1'): ('vab_book', 'n1')}
+        for (_s, name, p) in log.events:
+            if name != 'applied_evolution':
+                continue
+            for e in p.get('evolutions', []):
+                table, col = effect_of.get(tuple(e), (None, None))
+                if table is None:
+                    continue
+                cols = [c[0] for c in O.table_dump(table, 'default')[
+                    'columns']] if table in O.list_tables('default') else []
+                if col not in cols:
+                    coll.add('C17|announced-as-applied-but-not-in-the-'
+                             'database|two-apps|%s' % (
+                                 'fault' if fault else 'fault-free'),
+                             {'scenario': 'two-apps', 'fault_at': fault},
+                             {'evolution': list(e), 'columns': cols})
         # payload truthfulness: labels carried == evolutions of that app
         if res.ok:
             carried = sorted(set(
@@ -85,6 +104,54 @@ def extra_scenarios(coll, stats):
             if carried != [('va', 'e1'), ('vab', 'e1')]:
                 coll.add('C17|payload-evolutions-wrong|two-apps',
                          {'scenario': 'two-apps'}, {'carried': carried})
+
+
+def raw_sql_scenario(coll, stats):
+    """Evolutions made of raw SQL (with and without comments inside the
+    statements): the pair that names the evolution must enclose SQL that
+    really reaches the database, and the rows must show its effect."""
+    from django_evolution import management
+    start = c03.narrow_start()
+    variants = [
+        ('plain', ["UPDATE va_item SET b = 41 WHERE b IS NULL;"]),
+        ('trailing-comment',
+         ["UPDATE va_item SET b = 41 WHERE b IS NULL; -- back-fill"]),
+        ('inline-comment',
+         ["UPDATE va_item SET b = 41 -- back-fill\n WHERE b IS NULL;"]),
+        ('comment-line-first',
+         ["-- back-fill", "UPDATE va_item SET b = 41 WHERE b IS NULL;"]),
+    ]
+    for name, stmts in variants:
+        hist = EB.History(start, [('va', 'e1', [['SQLRaw', 'fill',
+                                                 stmts]])])
+        hist.install(0)
+        B.fresh_db('default')
+        B.reset_globals()
+        r0 = EB.upgrade('D2')
+        from vf import rows as RW
+        RW.populate(start, 'R2', 'default')
+        hist.install(1)
+        B.reset_globals()
+        seq = [0]
+        tracer = O.Tracer('default', seq=seq)
+        lock = management._evolve_lock
+        with O.SignalLog(seq) as log:
+            res = EB.upgrade('D2', tracer=tracer)
+        stats['extra_runs'] += 1
+        replay = {'scenario': 'raw-sql', 'variant': name}
+        if not res.ok:
+            coll.add('C17|raw-sql-run-fails|%s|%s' % (res.exc_type, name),
+                     replay, {'error': str(res.exc)[:200]})
+            continue
+        for clause, detail in acceptor.check(
+                log.events, tracer.statements, 'ok', lock,
+                management._evolve_lock, saved=True):
+            coll.add('C17|%s|raw-sql:%s' % (clause, name), replay, detail)
+        left = [r for r in O.row_dump('default')['va_item']['rows']
+                if any(v == (None, 'null') for v in r)]
+        if left:
+            coll.add('C17|announced-as-applied-but-not-in-the-database|'
+                     'raw-sql:%s' % name, replay, {'rows': str(left)[:200]})
 
 
 def split_batch_scenario(coll, stats):
@@ -212,6 +279,7 @@ def run(tier, seed, confirm=True):
     stats = {'extra_runs': 0}
     extra_scenarios(coll, stats)
     split_batch_scenario(coll, stats)
+    raw_sql_scenario(coll, stats)
     handover_scenarios(coll, stats, tier)
     coverage = {
         'evaluations': total['runs'] + stats['extra_runs'],
